@@ -14,7 +14,7 @@ PROP = {
                   "(unb64 (b64 x) = some x; base64 text needs no XML escaping; digest-distinctness for 'another password fails'). "
                   "The executable Lean SHA-512/base64 used by the driver are validated by FIPS 180-4 / RFC 4648 vectors and by agreeing "
                   "with the Rust sha2 crate on every line.",
-    "expect_theorems": ["C15_constants_match_source", "C15_hash", "C15_verifies", "C15_other_fails", "C15_no_clear", "C15_roundtrip"],
+    "expect_theorems": ["C15_constants_match_source", "C15_hash_fn_matches_source", "C15_setters_match_source", "C15_hash", "C15_verifies", "C15_other_fails", "C15_no_clear", "C15_roundtrip"],
     "rule": "hook stream: every password x spin in {0,1,2,3,10,257} x salt shape (empty / 16 random / 16 x 0xff / 1..40 random) plus a few "
             "at spin 100000; setter stream: every password (empty, ASCII, 1 char, XML-special, BMP scripts, non-BMP, 255 x ASCII, 255 mixed "
             "incl. non-BMP; thorough: 60 incl. random over a special alphabet) x 3 kinds x pre-state (fresh / legacy raw hash / old hashed "
@@ -26,6 +26,10 @@ PROP = {
         "quick-xml attribute escaping modelled (five characters); the zip container and the rest of the writer/reader are exercised, not modelled",
         "the sixteen/three boolean option attributes of the protection elements are outside the model",
         "cfg(umya_verif) hook verif_convert_password_to_hash is an add-only wrapper of the private function",
+        "translator tie (C15_hash_fn_matches_source, C15_setters_match_source): convert_password_to_hash, hash and the three encrypt_*_protection setters are "
+        "compiled from the current source and proved equal to the model for all arguments; read as externs: the Sha512 hasher (bytes fed so far, finalize = "
+        "sha512), base64, gen_random_16; the protection object is a field store (rt_Obj) whose setters are resolved by reading the struct's source file "
+        "(StringValue / UInt32Value set_value / remove_value modelled as field updates)",
     ],
     "assumptions": ["P.unb64 (P.b64 x) = some x", "base64 text contains none of < > & ' \"",
                     "C15_other_fails: the iterated digests of the two passwords differ (SHA-512 collision-freedom is a hypothesis)",
